@@ -2939,7 +2939,12 @@ def groupby_reduce(
             # no chunk function, so only 'blockwise' is possible: every block knows its own groups
             reindex = ReindexStrategy(blockwise=False, array_type=reindex.array_type)
 
-        if not chunks_cohorts and (method == "cohorts" or (user_method is None and method == "blockwise")):
+        if (
+            not chunks_cohorts
+            and (method == "cohorts" or (user_method is None and method == "blockwise"))
+            # (reductions without a chunk function can only run blockwise)
+            and agg.chunk[0] is not None
+        ):
             # none of the requested labels occurs in any block: there is nothing to split into cohorts
             method = "map-reduce"
 
